@@ -1,0 +1,36 @@
+//go:build verif
+
+package verifspec
+
+// Contracts for the UTF-8 / string helpers of compiler/prelude/prelude.js (property C14).
+//
+// The decoder specification is written from Unicode 15 Table 3-7 (well-formed UTF-8 byte sequences) and the Go
+// specification's rule for range loops / []rune conversion: each byte that does not start a well-formed sequence
+// yields U+FFFD with width 1.
+
+//@ pure at(s string, p int, i int) int = p + i < len(s) ? s[p+i] : -1
+//@ pure cont(b int) bool = b >= 128 && b <= 191
+//@ pure wf2(c0 int, c1 int) bool = c0 >= 194 && c0 <= 223 && cont(c1)
+//@ pure wf3(c0 int, c1 int, c2 int) bool = ((c0 == 224 && c1 >= 160 && c1 <= 191) || (c0 >= 225 && c0 <= 236 && cont(c1)) || (c0 == 237 && c1 >= 128 && c1 <= 159) || (c0 >= 238 && c0 <= 239 && cont(c1))) && cont(c2)
+//@ pure wf4(c0 int, c1 int, c2 int, c3 int) bool = ((c0 == 240 && c1 >= 144 && c1 <= 191) || (c0 >= 241 && c0 <= 243 && cont(c1)) || (c0 == 244 && c1 >= 128 && c1 <= 143)) && cont(c2) && cont(c3)
+//@ pure decW(s string, p int) int = at(s,p,0) < 128 ? 1 : (wf2(at(s,p,0), at(s,p,1)) ? 2 : (wf3(at(s,p,0), at(s,p,1), at(s,p,2)) ? 3 : (wf4(at(s,p,0), at(s,p,1), at(s,p,2), at(s,p,3)) ? 4 : 1)))
+//@ pure decR(s string, p int) int = at(s,p,0) < 128 ? at(s,p,0) : (wf2(at(s,p,0), at(s,p,1)) ? (at(s,p,0) - 192) * 64 + (at(s,p,1) - 128) : (wf3(at(s,p,0), at(s,p,1), at(s,p,2)) ? (at(s,p,0) - 224) * 4096 + (at(s,p,1) - 128) * 64 + (at(s,p,2) - 128) : (wf4(at(s,p,0), at(s,p,1), at(s,p,2), at(s,p,3)) ? (at(s,p,0) - 240) * 262144 + (at(s,p,1) - 128) * 4096 + (at(s,p,2) - 128) * 64 + (at(s,p,3) - 128) : 65533)))
+
+//@ js prelude.js $decodeRune
+//@ property C14
+//@   param str: str, pos: nat
+//@   requires pos < len(str)
+//@   ensures result._0 == decR(str, pos)
+//@   ensures result._1 == decW(str, pos)
+//@   ensures result._1 >= 1 && pos + result._1 <= len(str)
+
+// $encodeRune: invalid code points (negative, above U+10FFFF, surrogates) encode as U+FFFD; everything else in the
+// shortest form (RFC 3629).
+//@ pure validRune(r int) bool = r >= 0 && r <= 1114111 && !(r >= 55296 && r <= 57343)
+//@ pure encLen(r int) int = r <= 127 ? 1 : (r <= 2047 ? 2 : (r <= 65535 ? 3 : 4))
+//@ js prelude.js $encodeRune
+//@ property C14
+//@   param r: rune32
+//@   ensures len(result) == encLen(validRune(r) ? r : 65533)
+//@   ensures decR(result, 0) == (validRune(r) ? r : 65533) && decW(result, 0) == len(result)
+//@   ensures forall(k, 0, len(result), result[k] >= 0 && result[k] <= 255)
